@@ -67,7 +67,16 @@ impl Prop for C07 {
         if !p.exact {
             r.label("nonsuccess");
         }
-        let (e, buf) = encode_in(&case.env, &case.call, BIG, |i| 0xB0 | (i as u8 & 0x0F));
+        let ((e, buf), (e_again, buf_again)) = encode_twice_in(&case.env, &case.call, BIG, |i| 0xB0 | (i as u8 & 0x0F));
+        // encoding a response must not consume or change what the context stores
+        // (the EID in particular): the same call again gives the same packet
+        if let (Enc::Ok(n1), again) = (&e, &e_again) {
+            let same = matches!(again, Enc::Ok(n2) if n2 == n1 && *n1 <= buf.len() && buf_again[..*n1] == buf[..*n1]);
+            if !same {
+                let n = (*n1).min(buf.len());
+                r.fail(format!("C07:{}:second_encode_differs", kind), format!("the same response encoded twice in a row on one context: first {} , then {:?} {}", hex(&buf[..n]), again, hex(&buf_again[..n.min(24)])));
+            }
+        }
         let len = match e {
             Enc::Ok(n) => n,
             other => {
